@@ -423,6 +423,19 @@ class ResizingOperator(Operator):
                 # weights in the inner products of `op.range` and
                 # `op.domain`, which the adjoint must account for.
                 x_arr = _scale_bdry_cells(x.asarray(), op.range)
+
+                # The same holds for the weightings of range and domain,
+                # which can differ if `range` was given explicitly. For
+                # equal constants (the default), nothing needs to be done.
+                ran_weights = _inner_weights(op.range)
+                dom_weights = _inner_weights(op.domain)
+                if np.isscalar(ran_weights) and np.isscalar(dom_weights):
+                    ratio = ran_weights / dom_weights
+                    ran_weights = dom_weights = 1.0
+                else:
+                    ratio = 1.0
+                    x_arr = x_arr * ran_weights
+
                 with writable_array(out) as out_arr:
                     resize_array(x_arr, op.domain.shape,
                                  offset=op.offset, pad_mode=op.pad_mode,
@@ -430,6 +443,10 @@ class ResizingOperator(Operator):
                                  out=out_arr)
                     out_arr[:] = _scale_bdry_cells(out_arr, op.domain,
                                                    inverse=True)
+                    if not np.isscalar(dom_weights) or dom_weights != 1.0:
+                        out_arr /= dom_weights
+                    if ratio != 1.0:
+                        out_arr *= ratio
 
             @property
             def adjoint(self):
@@ -461,6 +478,21 @@ class ResizingOperator(Operator):
         return ResizingOperator(self.range, self.domain,
                                 pad_mode=self.pad_mode,
                                 pad_const=self.pad_const)
+
+
+def _inner_weights(space):
+    """Return the weights of ``space.inner`` (apart from boundary fractions).
+
+    This is a float for constant weightings (by default the cell volume),
+    an array for array weightings, and 1.0 otherwise.
+    """
+    weighting = space.weighting
+    if hasattr(weighting, 'const'):
+        return float(weighting.const)
+    elif hasattr(weighting, 'array'):
+        return np.asarray(weighting.array)
+    else:
+        return 1.0
 
 
 def _scale_bdry_cells(arr, space, inverse=False):
